@@ -11,6 +11,14 @@ BASELINE = ("cd /repo && /venv/bin/python -m pytest -ra -q -p no:cacheprovider -
 
 # pid -> (category, text, design_ref, level_note, technique)
 CLAIMED = {
+ "C20": ("model_checking",
+         "spec/Tnet.tla defines Dump and Parse over a value ADT (arbitrary-precision integers, floats as text, bytes, UTF-8 text, "
+         "booleans, null, lists, dictionaries); TLC checks Parse(Dump(v)) = (v, <<>>) and the same in front of every tail for every "
+         "value of the bounded domain; each (value, octets) vector is replayed into tnetstrings.dump / parse (exact types, "
+         "remainder) and, for the types the streaming tnet_machine supports, fed whole / bytewise / at every two-way split with "
+         "every tail: same payload, exactly Len(Dump(v)) symbols consumed.",
+         "5/C20", "floats carried as repr text; dictionary order = insertion order",
+         "TLA+ spec (Tnet) + TLC exhaustive over the value domain; vectors replayed into dump/parse and the streaming machine over all splits"),
  "C01": ("model_checking",
          "spec/CIPWire.tla is an encoder written from the CIP layout tables as TLA+ operators; TLC evaluates it over a bounded domain of "
          "every sub-grammar (EPATH segment kinds and widths, status, typed data of 13 types, Logix/attribute requests and all "
